@@ -90,9 +90,9 @@ func (r *orderRunner) Step(t []string) string {
 
 func orderGen(rng *proto.RNG, tier string, shard, nshards int, w *bufio.Writer) {
 	e := &emitter{w: w, shard: shard, nshards: nshards}
-	maxLen := 6
+	maxLen := 5
 	if tier == "thorough" {
-		maxLen = 7
+		maxLen = 6
 	}
 	// (ii) exhaustive over keys 1..3: add/set/del each key (values fresh), absent-key ops included
 	for _, kind := range []string{"o", "s"} {
